@@ -1,4 +1,4 @@
-import Clikit.Lemmas.Markup
+import Clikit.Lemmas.C11Markup
 /-!
 From token lists to messages (C11): the scanner and the cutter only rearrange characters of
 the message, the SGR sequences contain no backslash, and `replace("\\<", "<")` leaves
